@@ -11,28 +11,34 @@
 __all__ = []
 
 
+def _options(obj):
+    # The converted geometry keeps the parametrization of the input (a knot vector which is not normalized stays as it is)
+    # and its precision
+    return dict(normalize_kv=obj._kv_normalize, precision=obj._precision)
+
+
 def convert_curve(incrv, outtype):
-    outcrv = outtype.Curve()
+    outcrv = outtype.Curve(**_options(incrv))
     outcrv.degree = incrv.degree
     outcrv.ctrlpts = incrv.ctrlpts
-    outcrv.knotvector = incrv.knotvector
+    outcrv.knotvector = list(incrv.knotvector)
     return outcrv
 
 
 def convert_surface(insrf, outtype):
-    outsrf = outtype.Surface()
+    outsrf = outtype.Surface(**_options(insrf))
     outsrf.degree_u = insrf.degree_u
     outsrf.degree_v = insrf.degree_v
     outsrf.ctrlpts_size_u = insrf.ctrlpts_size_u
     outsrf.ctrlpts_size_v = insrf.ctrlpts_size_v
     outsrf.ctrlpts = insrf.ctrlpts
-    outsrf.knotvector_u = insrf.knotvector_u
-    outsrf.knotvector_v = insrf.knotvector_v
+    outsrf.knotvector_u = list(insrf.knotvector_u)
+    outsrf.knotvector_v = list(insrf.knotvector_v)
     return outsrf
 
 
 def convert_volume(invol, outtype):
-    outvol = outtype.Volume()
+    outvol = outtype.Volume(**_options(invol))
     outvol.degree_u = invol.degree_u
     outvol.degree_v = invol.degree_v
     outvol.degree_w = invol.degree_w
@@ -40,7 +46,7 @@ def convert_volume(invol, outtype):
     outvol.ctrlpts_size_v = invol.ctrlpts_size_v
     outvol.ctrlpts_size_w = invol.ctrlpts_size_w
     outvol.ctrlpts = invol.ctrlpts
-    outvol.knotvector_u = invol.knotvector_u
-    outvol.knotvector_v = invol.knotvector_v
-    outvol.knotvector_w = invol.knotvector_w
+    outvol.knotvector_u = list(invol.knotvector_u)
+    outvol.knotvector_v = list(invol.knotvector_v)
+    outvol.knotvector_w = list(invol.knotvector_w)
     return outvol
